@@ -322,6 +322,36 @@ var rR8 = RuleRef{Name: "R8", Doc: "exactly one reply write per command: on ever
 	for _, h := range hs {
 		isH[h] = true
 	}
+	// reply helpers: named functions with a connection parameter whose every caller is a connection handler or another
+	// reply helper (writeResult -> writeReply), never a go statement
+	replyHelper := map[*ssa.Function]bool{}
+	for _, fn := range c.P.allFuncs("server") {
+		if !isH[fn] && connParam(fn) != nil && fn.Parent() == nil {
+			replyHelper[fn] = true
+		}
+	}
+	for changed := true; changed; {
+		changed = false
+		for fn := range replyHelper {
+			ncall, ok := 0, true
+			for _, g := range c.P.allFuncs("server") {
+				for _, b := range g.Blocks {
+					for _, in := range b.Instrs {
+						if ci, isCall := in.(ssa.CallInstruction); isCall && callee(ci) == fn {
+							ncall++
+							if _, isGo := in.(*ssa.Go); isGo || !(isH[g] || replyHelper[g]) {
+								ok = false
+							}
+						}
+					}
+				}
+			}
+			if ncall == 0 || !ok {
+				delete(replyHelper, fn)
+				changed = true
+			}
+		}
+	}
 	for _, fn := range c.P.allFuncs("server") {
 		if isH[fn] {
 			continue
@@ -329,26 +359,7 @@ var rR8 = RuleRef{Name: "R8", Doc: "exactly one reply write per command: on ever
 		if par := fn.Parent(); par != nil && isH[par] && syncLocalClosure(par, fn) {
 			continue // a local reply helper of a handler, counted there
 		}
-		// a reply helper: every caller is a connection handler passing its own connection
-		helperOK := connParam(fn) != nil && fn.Parent() == nil
-		if helperOK {
-			ncall := 0
-			for _, g := range c.P.allFuncs("server") {
-				for _, b := range g.Blocks {
-					for _, in := range b.Instrs {
-						if ci, ok := in.(ssa.CallInstruction); ok && callee(ci) == fn {
-							ncall++
-							if _, isGo := in.(*ssa.Go); isGo || !isH[g] {
-								helperOK = false
-							}
-						}
-					}
-				}
-			}
-			if ncall == 0 {
-				helperOK = false
-			}
-		}
+		helperOK := replyHelper[fn]
 		for _, b := range fn.Blocks {
 			for _, in := range b.Instrs {
 				if isConnWrite(in, nil) && !(helperOK && isConnWrite(in, connParam(fn))) {
@@ -490,7 +501,12 @@ func helperScope(fn *ssa.Function, depth int) []*ssa.Function {
 // derivesFromCall: the value derives (through phis, extracts, first-party helper returns and the command filter)
 // from a call to target.
 func derivesFromCall(v ssa.Value, target *ssa.Function, depth int) bool {
-	if depth > 4 {
+	return derivesFromCallB(v, target, depth, nil)
+}
+
+// derivesFromCallB: bind maps the parameters of the helper being looked into to the arguments of the call that led there.
+func derivesFromCallB(v ssa.Value, target *ssa.Function, depth int, bind map[*ssa.Parameter]ssa.Value) bool {
+	if depth > 5 {
 		return false
 	}
 	found := false
@@ -498,10 +514,19 @@ func derivesFromCall(v ssa.Value, target *ssa.Function, depth int) bool {
 		if found {
 			return false
 		}
+		// a parameter of the helper we are inside: the argument it was called with
+		if prm, isP := x.(*ssa.Parameter); isP && bind != nil {
+			if a, ok := bind[prm]; ok && a != nil {
+				if derivesFromCallB(a, target, depth+1, nil) {
+					found = true
+				}
+				return false
+			}
+		}
 		// a field of a result record of a first-party helper: what the helper stored into that field
 		if fld, isF := x.(*ssa.Field); isF {
 			for _, src := range structFieldSources(fld.X, fld.Field) {
-				if derivesFromCall(src, target, depth+1) {
+				if derivesFromCallB(src, target, depth+1, bind) {
 					found = true
 				}
 			}
@@ -515,7 +540,7 @@ func derivesFromCall(v ssa.Value, target *ssa.Function, depth int) bool {
 				for _, r := range *al.Referrers() {
 					if st, ok := r.(*ssa.Store); ok && st.Addr == ssa.Value(al) {
 						for _, src := range structFieldSources(st.Val, fa.Field) {
-							if derivesFromCall(src, target, depth+1) {
+							if derivesFromCallB(src, target, depth+1, bind) {
 								found = true
 							}
 						}
@@ -531,10 +556,19 @@ func derivesFromCall(v ssa.Value, target *ssa.Function, depth int) bool {
 			if ex, isEx := x.(*ssa.Extract); isEx {
 				if c2, isC := ex.Tuple.(*ssa.Call); isC {
 					if cf := c2.Call.StaticCallee(); cf != nil && cf != target && firstParty(cf) && cf.Blocks != nil && callName(c2) != "Filter" {
+						nb := map[*ssa.Parameter]ssa.Value{}
+						for i, prm := range cf.Params {
+							if i < len(c2.Call.Args) {
+								nb[prm] = c2.Call.Args[i]
+							}
+						}
 						for _, b := range cf.Blocks {
 							for _, in := range b.Instrs {
 								if ret, isRet := in.(*ssa.Return); isRet && ex.Index < len(ret.Results) {
-									if derivesFromCall(ret.Results[ex.Index], target, depth+1) {
+									if isNilConst(ret.Results[ex.Index]) {
+										continue
+									}
+									if derivesFromCallB(ret.Results[ex.Index], target, depth+1, nb) {
 										found = true
 									}
 								}
@@ -555,10 +589,16 @@ func derivesFromCall(v ssa.Value, target *ssa.Function, depth int) bool {
 			return true // the filter hands the command through
 		}
 		if cf != nil && firstParty(cf) && cf.Blocks != nil {
+			nb := map[*ssa.Parameter]ssa.Value{}
+			for i, prm := range cf.Params {
+				if i < len(call.Call.Args) {
+					nb[prm] = call.Call.Args[i]
+				}
+			}
 			for _, b := range cf.Blocks {
 				for _, in := range b.Instrs {
 					if ret, isRet := in.(*ssa.Return); isRet && len(ret.Results) > 0 {
-						if derivesFromCall(ret.Results[0], target, depth+1) {
+						if derivesFromCallB(ret.Results[0], target, depth+1, nb) {
 							found = true
 						}
 					}
@@ -712,7 +752,6 @@ func isDispatcherParent(c *C, fn *ssa.Function) bool {
 	return false
 }
 
-
 // syncLocalClosure: cl is an anonymous function of parent that is only ever called directly, in place (never started
 // as a goroutine, deferred, stored or passed on): a local helper whose body runs on the caller's goroutine at the call.
 func syncLocalClosure(parent, cl *ssa.Function) bool {
@@ -779,7 +818,6 @@ func closureWriteCounts(cl *ssa.Function) Set {
 	}
 	return out
 }
-
 
 // structFieldSources: fld reads field k of a struct value that a first-party helper returned (directly or as one of
 // several results); the values the helper stored into field k of the records it returns.
